@@ -20,6 +20,14 @@ let dispatch fn args = match fn, args with
      | Err -> "err")
   | "objStreamOK", [n; first; mosc; mosf] ->
     str_of_bool (objStreamOK (z_of_hex n) (z_of_hex first) (lim z0 z0 (z_of_hex mosc) (z_of_hex mosf) z0 z0))
+  | "objStreamLimit", [n; first; mosc; mosf; mdb] ->
+    (match objectStreamDictWithLimits (z_of_hex n) (z_of_hex first) (lim z0 z0 (z_of_hex mosc) (z_of_hex mosf) z0 z0) (z_of_hex mdb) with
+     | Ok o -> "ok:" ^ hex_of_z o.o_mdb | Err -> "err")
+  | "osdFullDecode", [n; first; mosc; mosf; mdb; avail] ->
+    (match objectStreamDictWithLimits (z_of_hex n) (z_of_hex first) (lim z0 z0 (z_of_hex mosc) (z_of_hex mosf) z0 z0) (z_of_hex mdb) with
+     | Err -> "err"
+     | Ok o -> (match osdFullDecode o (z_of_hex avail) with
+                | DOk k -> "ok:" ^ hex_of_z k | DErrLimit -> "limit" | DErrEOF k -> "eof:" ^ hex_of_z k))
   | "imageOK", [w; h; mip; mib] ->
     (match imageOK (z_of_hex w) (z_of_hex h) (lim z0 z0 z0 z0 (z_of_hex mip) (z_of_hex mib)) with
      | Ok (px, rb) -> Printf.sprintf "ok:%s:%s" (hex_of_z px) (hex_of_z rb)
